@@ -1459,7 +1459,9 @@ pub fn generate(p: &GenParams) -> Generated {
     for _ in 0..n_local_globals {
         let ty = *rng.pick(&base);
         let mutable = rng.bool();
-        let init = const_expr_for(ty, &mut rng, &imported_immutable, &declared_funcs);
+        // (a ref.func in a global initialiser needs no declaration elsewhere: it may be the function's only mention)
+        let any_func: Vec<u32> = if n_total_funcs > 0 && rng.bool() { vec![rng.below(n_total_funcs as u64) as u32] } else { declared_funcs.clone() };
+        let init = const_expr_for(ty, &mut rng, &imported_immutable, &any_func);
         globals.push(GlobalInfo { ty, mutable, imported: false });
         global_inits.push((we::GlobalType { val_type: ty, mutable, shared: false }, init));
     }
